@@ -1,27 +1,67 @@
 #!/usr/bin/env python3
-"""Re-run tools/try_patch.py on every seeded/<id>/patch.diff and refresh meta.json's static_checks
-(which checks fire today).  /repo must be clean; it is restored after each patch."""
+"""Re-run all twenty quick checks on every seeded/<id>/patch.diff and refresh meta.json's static_checks (which checks
+fire today).  Each patch is applied to a scratch copy of /repo's sources (patch(1)), never to /repo itself, so several
+run in parallel.  Exits non-zero when a kept change is reported by no check, or not by its own property's check."""
 import glob
 import json
 import os
 import re
+import shutil
 import subprocess
 import sys
+from concurrent.futures import ThreadPoolExecutor
 
 HERE = os.path.dirname(os.path.dirname(os.path.abspath(__file__)))
-bad = 0
-for mp in sorted(glob.glob(os.path.join(HERE, "seeded", "*", "meta.json"))):
-    d = os.path.dirname(mp)
-    p = subprocess.run([sys.executable, os.path.join(HERE, "tools", "try_patch.py"), os.path.join(d, "patch.diff")], capture_output=True, text=True)
-    out = p.stdout + p.stderr
-    m = re.search(r"^FIRED: (.*)$", out, re.M)
-    fired = m.group(1).split() if m and m.group(1).strip() != "none" else []
-    rules = sorted(set(re.findall(r"VIOLATED (R-C\d\d-[\w-]+)", out)))
-    meta = json.load(open(mp))
-    meta["static_checks"]["fired"] = fired
-    meta["static_checks"]["rules"] = rules
-    json.dump(meta, open(mp, "w"), indent=1)
-    own = meta["property"] in fired
-    print(os.path.basename(d), "fired:", fired, "" if own else "  <-- the property's own check is silent")
-    bad += not fired
-sys.exit(1 if bad else 0)
+sys.path.insert(0, HERE)
+from selftest.mutate import make_copy, apply_patch  # noqa: E402
+
+PROPS = ["C%02d" % i for i in range(1, 21)]
+
+
+def one(mp):
+    d0 = os.path.dirname(mp)
+    rel = os.path.relpath(os.path.join(d0, "patch.diff"), HERE)
+    try:
+        d = make_copy([])
+        apply_patch(d, rel)
+    except ValueError as e:
+        return mp, None, None, str(e)
+    fired, rules = [], set()
+    try:
+        env = dict(os.environ, CATII_REPO=d, VERIF_EVIDENCE_DIR=os.path.join(d, "evidence"), VERIF_NO_SELFTEST="1")
+        for p in PROPS:
+            try:
+                r = subprocess.run(["/venv/bin/python", os.path.join(HERE, "checks", p.lower() + ".py"), "--tier", "quick"], capture_output=True, text=True, env=env, cwd=HERE, timeout=300)
+            except subprocess.TimeoutExpired:
+                continue
+            if r.returncode == 1:
+                fired.append(p)
+                rules.update(re.findall(r"VIOLATED (R-C\d\d-[\w-]+)", r.stdout))
+    finally:
+        shutil.rmtree(d, ignore_errors=True)
+    return mp, fired, sorted(rules), None
+
+
+def main():
+    metas = sorted(glob.glob(os.path.join(HERE, "seeded", "*", "meta.json")))
+    bad = 0
+    with ThreadPoolExecutor(int(os.environ.get("REFRESH_JOBS", "8"))) as ex:
+        for mp, fired, rules, err in ex.map(one, metas):
+            name = os.path.basename(os.path.dirname(mp))
+            if err:
+                print(name, "PATCH DOES NOT APPLY:", err[:120], flush=True)
+                bad += 1
+                continue
+            meta = json.load(open(mp))
+            meta["static_checks"]["fired"] = fired
+            meta["static_checks"]["rules"] = rules
+            meta["static_checks"]["tool"] = "tools/refresh_seeds.py (patch applied to a scratch copy of /repo's sources, all twenty quick checks)"
+            json.dump(meta, open(mp, "w"), indent=1)
+            own = meta["property"] in fired
+            print(name, "fired:", fired, "" if own else "  <-- the property's own check is silent", flush=True)
+            bad += (not fired) or (not own)
+    sys.exit(1 if bad else 0)
+
+
+if __name__ == "__main__":
+    main()
